@@ -82,7 +82,7 @@ def order(R, ctx):
     for trait, vself in ((coverage.NODE_VISITOR, SV), (coverage.NODE_POST_VISITOR, SPV)):
         over = coverage.impl_methods(lib, trait, vself)
         short = vself.split("::")[-1]
-        R.require(rid, "%s|floor:overrides" % short, len(over) >= 8, "", "%d overrides" % len(over))
+        R.require(rid, "%s|floor:overrides" % short, len(over) >= 6, "", "%d overrides" % len(over))
 
         def get(name):
             p = over.get("%s::%s" % (trait, name))
@@ -229,7 +229,7 @@ def fresh(R, ctx):
             filtered = any(k == "then" and M.mentions(fa, cond, guards.is_call_named("filter_identifier"), 0) and cond.get("k") != "Unary" for cond, k in guards.conditions_of(fa, r))
             R.ob(rid, "generate_identifier|result@%d" % n, from_pool or filtered, ctx.where(fn, r.get("ln")),
                  "returned name %s" % ("comes from the reuse pool" if from_pool else "passed filter_identifier" if filtered else "is neither pooled nor filtered"))
-        R.require(rid, "generate_identifier|floor", n >= 2, ctx.where(fn), "%d result expressions" % n)
+        R.require(rid, "generate_identifier|floor", n >= 1, ctx.where(fn), "%d result expressions" % n)
     fn = lib.fn("rules::rename_variables::rename_processor::RenameProcessor::filter_identifier")
     if R.require(rid, "anchor:filter_identifier", fn is not None, "", "not found"):
         b = thir.body_of(fn)
